@@ -52,6 +52,7 @@ type Exec struct {
 	loops map[*ssa.Function]map[*ssa.BasicBlock]*Loop
 	init  *State // entry state (for old())
 	giInit map[*Clause]string // global invariants as assumed at entry
+	Unroll int                // > 0: bounded unrolling instead of loop cutting (counterexample search only)
 	giNorm *State
 	giNormFor *State
 	params map[string]Value
@@ -455,12 +456,26 @@ func (x *Exec) runBlock(st *State, b *ssa.BasicBlock, pred *ssa.BasicBlock) {
 	fr := st.top()
 	fn := fr.Fn
 	if l := x.loopsOf(fn)[b]; l != nil {
-		if pred != nil && l.Body[pred] {
-			x.loopBackEdge(st, fn, l)
-			return
-		}
-		if !x.loopEntry(st, fn, l) {
-			return
+		if x.Unroll > 0 {
+			// counterexample search: loops are unrolled a bounded number of times instead of being cut at invariants
+			// (paths that would need more iterations are simply not explored)
+			st.Visits[b]++
+			if st.Visits[b] > x.Unroll+1 {
+				return
+			}
+			for h, il := range x.loopsOf(fn) {
+				if h != b && l.Body[h] && il != l {
+					st.Visits[h] = 0 // a fresh run of every inner loop per outer iteration
+				}
+			}
+		} else {
+			if pred != nil && l.Body[pred] {
+				x.loopBackEdge(st, fn, l)
+				return
+			}
+			if !x.loopEntry(st, fn, l) {
+				return
+			}
 		}
 	}
 	if pred != nil && x.FC != nil && len(x.FC.Asserts) > 0 {
